@@ -32,7 +32,7 @@ def order_spec(bt):
                  z3.If(z3.And(bt >= 0, bt <= 6), z3.ToReal(bt), z3.RealVal(1))))
 
 
-def setup(V, nb, hint, restrict_bt=True):
+def setup(V, nb, hint, restrict_bt=True, any_group=False, neighbour_types=False):
     I, st = V.I, V.st
     E = V.cls("molli.chem.atom:Element")
     group = z3.Function("element_group", z3.IntSort(), z3.IntSort())
@@ -47,7 +47,13 @@ def setup(V, nb, hint, restrict_bt=True):
     c.fields["formal_spin"] = V.sym("spin", "int")
     V.assume(z3.And(c.fields["formal_charge"].z >= -2, c.fields["formal_charge"].z <= 2, c.fields["formal_spin"].z >= -2, c.fields["formal_spin"].z <= 2))
     g = group(to_z3(c.fields["element"], "int"))
-    V.assume(z3.And(g >= 13, g <= 16))
+    V.assume(z3.And(g >= 1, g <= 18) if any_group else z3.And(g >= 13, g <= 16))
+    if neighbour_types:
+        # what the neighbours are (regular atoms, dummies, a coordination centre, an attachment point ...) is not part of the formula:
+        # the bonded valence counts the orders of the centre's bonds, whatever is at their other end
+        AT = V.cls("molli.chem.atom:AtomType")
+        for j, a_ in enumerate(m.fields["_atoms"].items[1:]):
+            a_.fields["atype"] = V.sym_enum(f"nb{j}_atype", AT)
     BT = V.cls("molli.chem.bond:BondType")
     bts = []
     for b in m.fields["_bonds"].items:
@@ -83,13 +89,13 @@ def _count(V):
     hint = V.sym("hint", "int") if hinted else None
     if hinted:
         V.assume(z3.And(hint.z >= 0, hint.z <= 4))
-    m, c, g, bts, radius = setup(V, nb, hint)
+    m, c, g, bts, radius = setup(V, nb, hint, neighbour_types=True)
     I.stubs["molli.math.plane:mean_plane"] = lambda I_, fv, a, k: NP.mk([st.fresh_sv(f"mp{i}", "real") for i in range(3)])
     I.applies["molli.math.rotation:rotation_matrix_from_vectors"] = G.rot_contract
     before = M.snapshot(m)
     fc, spin = c.fields["formal_charge"].z, c.fields["formal_spin"].z
     n_spec = spec_count(g, fc, spin, bts, hint)
-    V.witness(lambda ev: {"op": "count", "neighbours": nb, "hint": ev(hint) if hinted else None, "group": ev(g), "fc": ev(fc), "spin": ev(spin),
+    V.witness(lambda ev: {"op": "count", "neighbours": nb, "neighbour_types": [ev(a_.fields["atype"]) for a_ in m.fields["_atoms"].items[1:]], "hint": ev(hint) if hinted else None, "group": ev(g), "fc": ev(fc), "spin": ev(spin),
                           "btypes": [ev(b.z) for b in bts], "expected": ev(n_spec), "signature": "hydrogen-count"})
     V.cover()
     out = V.method(m, "add_implicit_hydrogens", [c], qual=f"{ST}.add_implicit_hydrogens")
@@ -113,6 +119,31 @@ def _count(V):
                          *[M._same(I, x, y) for x, y in zip(m.fields["_atomic_charges"].data, before["charges"])]))
     V.ensure("post/one-row-and-one-numeric-charge-per-atom",
              z3.BoolVal(ca.tail == (len(al), 3) and m.fields["_atomic_charges"].tail == (len(al),) and all(x is not None for x in m.fields["_atomic_charges"].data)))
+
+
+@P.unit(f"{ST}.add_implicit_hydrogens", name="default atom selection: called without atoms, only hint-free atoms of groups 13-16 receive hydrogens (by the formula), every other atom none")
+def _default_selection(V):
+    I, st = V.I, V.st
+    nb = V.choose([0, 1], "neighbours")
+    m, c, g, bts, radius = setup(V, nb, None, any_group=True)
+    I.stubs["molli.math.plane:mean_plane"] = lambda I_, fv, a, k: NP.mk([st.fresh_sv(f"mp{i}", "real") for i in range(3)])
+    I.applies["molli.math.rotation:rotation_matrix_from_vectors"] = G.rot_contract
+    # the neighbour (if any) is an atom that takes no hydrogens itself: a transition metal
+    group = z3.Function("element_group", z3.IntSort(), z3.IntSort())
+    for a_ in m.fields["_atoms"].items[1:]:
+        V.assume(group(to_z3(a_.fields["element"], "int")) == 8)
+    before = M.snapshot(m)
+    fc, spin = c.fields["formal_charge"].z, c.fields["formal_spin"].z
+    n_spec = z3.If(z3.And(g >= 13, g <= 16), spec_count(g, fc, spin, bts, None), 0)
+    V.witness(lambda ev: {"op": "default-selection", "neighbours": nb, "group": ev(g), "fc": ev(fc), "spin": ev(spin), "btypes": [ev(b.z) for b in bts],
+                          "expected": ev(n_spec), "signature": "default-selection"})
+    V.cover()
+    out = V.method(m, "add_implicit_hydrogens", [], qual=f"{ST}.add_implicit_hydrogens")
+    V.ensure("selection/returns", z3.BoolVal(out.returned))
+    if not out.returned:
+        return
+    added = m.fields["_atoms"].items[len(before["atoms"]):]
+    V.ensure("selection/only-group-13-to-16-atoms-receive-hydrogens-and-those-by-the-formula", n_spec == len(added))
 
 
 @P.lemma("second call adds nothing on hint-free molecules")
